@@ -56,3 +56,99 @@ def b32(v):
 
 def inv_n(x):
     return pow(x % N, -1, N)
+
+
+# ---------------------------------------------------------------- points with a prescribed y
+# roots of the cubic x^3 + A x + (B - y^2) over F_p (Cantor-Zassenhaus on the linear factors); used to
+# build public keys whose y coordinate is small, so that y + p is a 32-byte NON-canonical encoding.
+
+def _pmulmod(f, g, m):
+    """product of polynomials (little-endian coefficient lists) modulo the monic polynomial m"""
+    r = [0] * (len(f) + len(g) - 1)
+    for i, a in enumerate(f):
+        if a:
+            for j, b in enumerate(g):
+                r[i + j] = (r[i + j] + a * b) % P
+    d = len(m) - 1
+    for i in range(len(r) - 1, d - 1, -1):
+        c = r[i]
+        if c:
+            for j in range(d + 1):
+                r[i - d + j] = (r[i - d + j] - c * m[j]) % P
+    r = r[:d]
+    while r and r[-1] == 0:
+        r.pop()
+    return r
+
+
+def _ppowmod(f, e, m):
+    r = [1]
+    while e:
+        if e & 1:
+            r = _pmulmod(r, f, m)
+        f = _pmulmod(f, f, m)
+        e >>= 1
+    return r
+
+
+def _pgcd(f, g):
+    f, g = list(f), list(g)
+    while g:
+        # f mod g
+        inv = pow(g[-1], -1, P)
+        g = [c * inv % P for c in g]
+        while len(f) >= len(g):
+            c = f[-1]
+            if c:
+                sh = len(f) - len(g)
+                for j in range(len(g)):
+                    f[sh + j] = (f[sh + j] - c * g[j]) % P
+            f.pop()
+        while f and f[-1] == 0:
+            f.pop()
+        f, g = g, f
+    if f:
+        inv = pow(f[-1], -1, P)
+        f = [c * inv % P for c in f]
+    return f
+
+
+def xs_for_y(y, rng):
+    """all x with (x, y) on the curve"""
+    f = [(B - y * y) % P, A % P, 0, 1]
+    xp = _ppowmod([0, 1], P, f)                       # x^p mod f
+    xp = xp + [0] * (2 - len(xp)) if len(xp) < 2 else xp
+    xp[1] = (xp[1] - 1) % P
+    while xp and xp[-1] == 0:
+        xp.pop()
+    g = _pgcd(f, xp) if xp else f                     # product of the linear factors
+    roots, todo = [], [g]
+    while todo:
+        h = todo.pop()
+        if len(h) <= 1:
+            continue
+        if len(h) == 2:
+            roots.append((-h[0]) % P)
+            continue
+        for _ in range(200):
+            c = rng.randrange(P)
+            t = _ppowmod([c, 1], (P - 1) // 2, h)
+            t = t + [0] * (1 - len(t)) if not t else t
+            t[0] = (t[0] - 1) % P
+            while t and t[-1] == 0:
+                t.pop()
+            d = _pgcd(h, t) if t else h
+            if 1 < len(d) < len(h):
+                # quotient h / d
+                q, rem = [], list(h)
+                while len(rem) >= len(d):
+                    c2 = rem[-1]
+                    q.append(c2)
+                    sh = len(rem) - len(d)
+                    for j in range(len(d)):
+                        rem[sh + j] = (rem[sh + j] - c2 * d[j]) % P
+                    rem.pop()
+                q.reverse()
+                todo += [d, q]
+                break
+    return sorted(x for x in set(roots) if on_curve(x, y))
